@@ -30,6 +30,10 @@ pub fn install_panic_hook() {
             "<non-string panic payload>".to_string()
         };
         let loc = info.location().map(|l| format!("{}:{}", l.file(), l.line())).unwrap_or_default();
+        if msg.starts_with("unsafe precondition") || msg.contains("cannot unwind") {
+            // a non-unwinding panic (std's unsafe-precondition checks) aborts the process: say why
+            eprintln!("{} @ {}", msg, loc);
+        }
         LAST_PANIC.with(|p| *p.borrow_mut() = (msg, loc));
     }));
 }
